@@ -35,6 +35,34 @@ CHECKS = {
    technique="property-based testing: seeded proptest generators over shard contents x keys x include flags x validity; oracle = field-wise model of the keyed export with an independent HMAC, differential of shard managers over original vs exported shards (parts under different keys in one directory), expiry predicates over generated footers with clock margin",
    text="Every export is parsed and compared field-wise with the model (chunk hashes keyed by an independent keyed-BLAKE3, nothing else changed, tables iff requested and recomputed, footer key/timestamps/totals), manager answers to unkeyed queries must equal those over the original shards, and load/clean decisions are checked on both sides of both thresholds. Exploration over contents/keys/flags/timestamps.",
    note="Expiry cases keep 100 s margin around the wall clock. Manager differential uses universes with pairwise distinct chunk hashes (otherwise the truthful answer is not unique)."),
+ "C01": dict(level="exploration", design="3/C01",
+   technique='property-based testing: seeded proptest generators over configurations x multi-session histories of chunk-pool files (controlled internal / cross-file / cross-session duplication, multiple clients sharing the store, restarts), round-trip oracle (download full + ranges = fed bytes)',
+   text='Generated histories (1-4 sessions, 1-6 files, dedup structure chosen by the generator, all size limits varied per child process) are uploaded and every file - including those of earlier sessions after each later session - is downloaded in full and over generated byte ranges and compared with the fed bytes. Exploration: the input space (contents x histories x configurations x interleavings) is sampled with generators built to hit shard hits, in-xorb self references, merged aggregators and limit-sized xorbs.',
+   note="Runs through the repository's local file-system store (LocalClient) wrapped in a tracing client injected through the guarded hook; configurations are process environments (debug-assertion builds read the size constants from HF_XET_*). Concurrent cleaning samples OS schedules."),
+ "C02": dict(level="exploration", design="3/C02",
+   technique='property-based testing: same history generators; oracle = independent store validator (reference xorb decoder, reference Merkle / range hashes, sha2) run after every session over all stored xorbs and uploaded shard records',
+   text="After each generated session an independent validator recomputes every stored xorb's hash from decoded chunks, checks every file record of every uploaded shard and of finalize_with_file_info for existing xorbs, in-range indices, byte sums, file hash, verification hashes and SHA-256 of the original bytes. Exploration over sessions/configurations.",
+   note="Runs through the repository's local file-system store (LocalClient) wrapped in a tracing client injected through the guarded hook; configurations are process environments (debug-assertion builds read the size constants from HF_XET_*). Concurrent cleaning samples OS schedules."),
+ "C03": dict(level="exploration", design="3/C03",
+   technique='property-based testing: metamorphic contexts (partitions, neighbours, concurrency, prior store contents, clients, restarts, global dedup, two salts) around one generated content; oracle = reference chunker + reference Merkle file hash pins the value',
+   text="One content is cleaned in 3-6 generated contexts per case and configurations vary per process; the pointer's size must equal the byte count and its hash the reference file hash of the bytes, which makes all contexts and processes agree by construction of the oracle; two salts must differ. Exploration over contents/contexts/configurations.",
+   note="Runs through the repository's local file-system store (LocalClient) wrapped in a tracing client injected through the guarded hook; configurations are process environments (debug-assertion builds read the size constants from HF_XET_*). Concurrent cleaning samples OS schedules."),
+ "C11": dict(level="exploration", design="3/C11",
+   technique="property-based testing: generated upload / re-upload histories (same, extended, recombined content; simulated client restarts); oracle = structural inclusion of every new xorb's chunk list in the client's cached shards + bound on new_bytes from the set of chunks already in the store",
+   text="After every session each newly stored xorb must be fully recorded in a shard of the client's shard cache, and every later session may only report as new the bytes of chunk occurrences absent from the store plus those withheld by fragmentation prevention; pure re-uploads report 0 and create no xorb. Exploration over histories/configurations.",
+   note="Runs through the repository's local file-system store (LocalClient) wrapped in a tracing client injected through the guarded hook; configurations are process environments (debug-assertion builds read the size constants from HF_XET_*). Concurrent cleaning samples OS schedules."),
+ "C14": dict(level="exploration", design="3/C14",
+   technique='property-based testing: fragmentation-biased histories under small estimator windows with generated completion delays; oracle = conservation laws over per-file and session metrics and the store call log of the tracing client',
+   text='For every generated session the per-file laws (size = total = fed bytes, new + deduped = total, withheld <= new, chunk counts) and the session laws (sums over files, xorb/shard upload bytes equal what the store received) are checked against an independent chunk count and the recorded store calls. Exploration over histories/configurations/delays.',
+   note="Runs through the repository's local file-system store (LocalClient) wrapped in a tracing client injected through the guarded hook; configurations are process environments (debug-assertion builds read the size constants from HF_XET_*). Concurrent cleaning samples OS schedules."),
+ "C15": dict(level="exploration", design="3/C15",
+   technique='property-based testing: limit-seeking generators (files at MAX_XORB_CHUNKS-1/=/+1 chunks, constant chunks filling MAX_XORB_BYTES exactly / one past, many small files, concurrent completion); oracle = limit predicates on every put argument seen by the tracing client + validator acceptance + no zero xorb hash in emitted records',
+   text='Every xorb handed to the store in generated sessions is checked against the configured limits and the wire-format bounds, stored objects must pass validate_cas_object, and no emitted file record may carry an unresolved xorb reference. Exploration; generators derive sizes from the active configuration so limits are hit exactly.',
+   note="Runs through the repository's local file-system store (LocalClient) wrapped in a tracing client injected through the guarded hook; configurations are process environments (debug-assertion builds read the size constants from HF_XET_*). Concurrent cleaning samples OS schedules."),
+ "C16": dict(level="fault_enumeration", design="3/C16",
+   technique='fault injection with enumeration: for each generated scenario every single store call (put / upload_shard) of the session fails in turn (exhaustive per scenario), plus generated multi-fault sets and completion delays under concurrent cleaning; oracle = ordering invariant over the call log (shard only after its xorbs), error propagation, success implies downloadable',
+   text='Per generated scenario the fault-free run fixes the list of store calls and each is then failed once (exhaustive over single faults), with further random multi-fault / delay plans; the call log must show every shard upload preceded by successful puts of all xorbs its records reference, an injected failure must surface as an error of add_data / finish / finalize, and a session reporting success must download byte-exactly. Fault enumeration is the right level: the property quantifies over which call fails.',
+   note="Runs through the repository's local file-system store (LocalClient) wrapped in a tracing client injected through the guarded hook; configurations are process environments (debug-assertion builds read the size constants from HF_XET_*). Concurrent cleaning samples OS schedules."),
 }
 
 ALL = ["C%02d" % i for i in range(1, 21)]
@@ -77,7 +105,7 @@ def main():
     json.dump(m, open("/verif/MANIFEST.json", "w"), indent=1)
     print("wrote MANIFEST.json with", len(checks), "checks")
 
-HOOK_COMMITS = []
+HOOK_COMMITS = ["78e340d"]
 FIX_COMMITS = ["05f0b8b"]
 if __name__ == "__main__":
     main()
